@@ -5,6 +5,7 @@
    below. Whether the goroutines and tickers meet the monitor is sampled, not proved. *)
 From Coq Require Import ZArith List Bool Lia.
 From LNC Require Import GbnTimed TimedProofs.
+From LNC Require Wakeup WakeupProofs.
 Import ListNotations.
 Open Scope Z_scope.
 
@@ -24,6 +25,25 @@ Theorem c13_dead_peer_detected : forall ping pong slack tr st st' t ev,
   exists st1, krun ping pong slack st tr = Some st1 /\ t - k_last st1 <= ping + pong + slack.
 Proof. exact dead_peer_detected. Qed.
 Print Assumptions c13_dead_peer_detected.
+
+(* "a connection whose peer answers ... is never closed": the one place where the pong timer is started WITHOUT a ping
+   being sent is the send loop's wait on a full window (the queued packets that are being resent are the probe then).
+   Model/Wakeup.v, all interleavings of send loop and receive loop: with a buffered wake-up channel, a send loop that
+   sits in that wait although the window has been freed has a wake-up pending - it leaves the wait, finds room and
+   sends a real ping; with an unbuffered channel it can sit there with an empty window and nothing pending (the pong
+   timer then runs out on a peer that has answered everything: defects 24 / 25). The channel's capacity in the current
+   source is the generated table of C09 (c09_wakeup_channels_are_buffered). *)
+Theorem c13_full_window_wait_ends_when_the_window_is_freed : forall cap acks sched,
+  (cap >= 1)%nat -> let st := Wakeup.wrun cap (Wakeup.winit acks) sched in
+  Wakeup.w_spc st = Wakeup.SWait -> Wakeup.w_free st = true -> Wakeup.w_rsig st = false -> (Wakeup.w_pend st > 0)%nat.
+Proof. exact WakeupProofs.full_window_wait_is_about_to_end. Qed.
+Print Assumptions c13_full_window_wait_ends_when_the_window_is_freed.
+
+Theorem c13_unbuffered_wakeup_leaves_the_loop_waiting_refuted :
+  let st := Wakeup.wrun 0 (Wakeup.winit 1) (true :: false :: false :: true :: nil) in
+  Wakeup.w_free st = true /\ Wakeup.stuck st = true.
+Proof. exact WakeupProofs.unbuffered_signal_refuted. Qed.
+Print Assumptions c13_unbuffered_wakeup_leaves_the_loop_waiting_refuted.
 
 Example c13_ex :
   krun 5 3 1 (mk_kst 0 false) [(2, KRx); (7, KPing); (9, KRx); (14, KPing); (17, KClose); (100, KNow)] = Some (mk_kst 9 true)
